@@ -1,6 +1,7 @@
 import Drivers.Wire
 import Model.Timeout
 import Model.SharedStorage
+import Model.StopFlag
 
 /-! Driver for C14: one request = one scenario (evaluator ops and/or `search` calls).
 
@@ -8,6 +9,8 @@ import Model.SharedStorage
   "ops":[{"op":"timeout","t":3},{"op":"submit","k":5},{"op":"gather","all":true,"size":0,"rep":[2,0,1]},
          {"op":"close","rep":[]},
          {"op":"search","n":5,"strict":false,"timeout":4,"reps":[[0],[2,1]],"drain":[3,4]}]}`
+(a `search` op with `"views":[[null,false],…]` — one list per iteration, one entry per callback of the evaluator — is run
+through `searchF`; its reply carries `"flags":[[before,expired,fired,after],…]`)
 → `{"ok":true,"outs":[{"err":null,"now":3,"stop":null},...],
     "jobs":[{"log":[0,1,2],"status":2,"pc":"gathered","start":0,"ret":2,"saw":false,"fired":false,"out":["val",0]},...],
     "results":[...],"now":5}` -/
@@ -56,6 +59,21 @@ def opOut (err : Option String) (stop : Option String) (s : Ev) : Json :=
     ("stop", match stop with | some e => Json.str e | none => Json.null),
     ("now", nat s.now), ("nresults", nat s.results.length), ("njobs", nat s.jobs.length)]
 
+
+/-- `[[null,false],[null,true]]`: per iteration, per callback `null` = no `search_stopped` attribute -/
+def jOptBool (j : Json) : Except String (Option Bool) :=
+  match j with
+  | .null => pure none
+  | v => do pure (some (← jBool v))
+
+def flagJson (f : FlagStep) : Json := Json.arr #[f.before, f.expired, f.fired, f.after]
+
+/-- reply of a `search` op run through `searchF` (evaluator with callbacks): the usual fields + the flag history -/
+def opOutF (stop : String) (flags : List FlagStep) (s : Ev) : Json :=
+  Json.mkObj [("err", Json.null), ("stop", Json.str stop),
+    ("now", nat s.now), ("nresults", nat s.results.length), ("njobs", nat s.jobs.length),
+    ("flags", Json.arr (flags.map flagJson).toArray)]
+
 def runOp (s : Ev) (j : Json) : Except String (Ev × Json) := do
   let op ← (← field j "op").getStr?
   match op with
@@ -97,8 +115,18 @@ def runOp (s : Ev) (j : Json) : Except String (Ev × Json) := do
     let reps ← jList (jList jNat) (← field j "reps")
     let drain ← jList jNat (fieldD j "drain" (Json.arr #[]))
     let delays ← jList jNat (fieldD j "delays" (Json.arr #[]))
-    let r := search { s with askDelays := delays } { maxEvals := n, strict := strict, timeout := t } reps drain
-    return (r.1, opOut none (some (stopName r.2)) r.1)
+    match fieldD j "views" Json.null with
+    | .null =>
+      let r := search { s with askDelays := delays } { maxEvals := n, strict := strict, timeout := t } reps drain
+      return (r.1, opOut none (some (stopName r.2)) r.1)
+    | vj =>
+      -- the evaluator has callbacks: the loop with the explicit `stopped` flag (`Model/StopFlag.lean`)
+      let views ← jList (jList jOptBool) vj
+      let s0 := { s with askDelays := delays }
+      let c : Call := { maxEvals := n, strict := strict, timeout := t }
+      let repsO := reps.map (fun r => (r, ([] : List Nat)))
+      let r := searchF s0 c repsO (drain, []) views
+      return (r.1, opOutF (stopName r.2) (searchFlags s0 c repsO views) r.1)
   | _ => throw s!"unknown op {op}"
 
 def statusOfCode (n : Nat) : Except String Status :=
@@ -160,8 +188,16 @@ def runAct (s : Ev) (j : Json) : Except String (Ev × Json) := do
     let reps ← jList jPair (← field j "reps")
     let drain ← jPair (fieldD j "drain" (Json.arr #[Json.arr #[], Json.arr #[]]))
     let delays ← jList jNat (fieldD j "delays" (Json.arr #[]))
-    let r := searchO (step s (.askDelays delays)) { maxEvals := n, strict := strict, timeout := t } reps drain
-    return (r.1, opOut none (some (stopName r.2)) r.1)
+    match fieldD j "views" Json.null with
+    | .null =>
+      let r := searchO (step s (.askDelays delays)) { maxEvals := n, strict := strict, timeout := t } reps drain
+      return (r.1, opOut none (some (stopName r.2)) r.1)
+    | vj =>
+      let views ← jList (jList jOptBool) vj
+      let s0 := step s (.askDelays delays)
+      let c : Call := { maxEvals := n, strict := strict, timeout := t }
+      let r := searchF s0 c reps drain views
+      return (r.1, opOutF (stopName r.2) (searchFlags s0 c reps views) r.1)
   | "gather" =>
     let all ← jBool (← field j "all")
     let size ← jNat (fieldD j "size" (nat 0))
